@@ -401,6 +401,13 @@ def _eval_atom(v, env):
             if v.op in ('mod', 'floordiv') and b == 0:
                 raise ValueError('division by zero in %r' % (v,))
             return {'add': lambda: a + b, 'sub': lambda: a - b, 'mul': lambda: a * b, 'mod': lambda: a % b, 'floordiv': lambda: a // b}[v.op]()
+        if v.op == 'item' and len(v.args) == 2 and isinstance(v.args[0], ListV) and not v.args[0].has_splice():
+            # a table of constants indexed by the (now known) value
+            i = _eval_atom(v.args[1], env)
+            items = v.args[0].items
+            if isinstance(i, int) and -len(items) <= i < len(items):
+                return _eval_atom(items[i], env)
+            raise ValueError('index %r outside %r' % (i, v.args[0]))
     raise ValueError('cannot evaluate %r' % (v,))
 
 
@@ -422,6 +429,11 @@ def _weekday(model, res, opaque, E):
                     continue
                 consistent = True
                 for (t, alt, s) in o.notes:
+                    if s is None and t.startswith('index weekday(d:datetime) within ('):
+                        # a subscript of a 7-entry table by the weekday: within range for every weekday 0..6
+                        size = t.count(',') + 1
+                        if (0 <= w < size) != bool(alt):
+                            consistent = False
                     if isinstance(s, Atom) and s.op in ('eq', 'ne', 'lt', 'le', 'gt', 'ge'):
                         try:
                             a, b = _eval_atom(s.args[0], env), _eval_atom(s.args[1], env)
@@ -481,6 +493,19 @@ def _edate(model, res, opaque, E):
         ctor = ctors[-1]
         tests = list(_leap_tests(f)) + [n for n in walk_no_defs(f) if isinstance(n, ast.Call) and
                                         (sa.call_name(n) or '') in ('calendar.monthrange', 'calendar.isleap', 'monthrange', 'isleap')]
+        # ... also when the month length comes from a module-local helper (def _days_in_month(year, month): calendar.monthrange(...))
+
+        def looks_up_month_length(g, depth=0):
+            for x in walk_no_defs(g):
+                if isinstance(x, ast.Call) and (sa.call_name(x) or '') in ('calendar.monthrange', 'calendar.isleap', 'monthrange', 'isleap'):
+                    return True
+                if isinstance(x, ast.Call) and isinstance(x.func, ast.Name) and x.func.id in m.functions and depth < 2 and \
+                        m.functions[x.func.id] is not g and looks_up_month_length(m.functions[x.func.id], depth + 1):
+                    return True
+            return bool(_leap_tests(g)) or any(isinstance(x, (ast.List, ast.Tuple)) and len(x.elts) in (12, 13) for x in walk_no_defs(g))
+        tests += [n for n in walk_no_defs(f) if isinstance(n, ast.Call) and isinstance(n.func, ast.Name) and n.func.id in m.functions
+                  and m.functions[n.func.id] is not f and isinstance(m.functions[n.func.id], ast.FunctionDef)
+                  and looks_up_month_length(m.functions[n.func.id])]
         for var in set(x for x in (ysrc, msrc) if x.isidentifier()):
             rebinds = [st for st, val in sa.assignments_to(f, var)]
             for t in tests:
